@@ -52,7 +52,10 @@ def run_real(case, seed):
     from syndiffix.clustering.common import Clusters
     from syndiffix.interval import Interval
     rng = TS.RecRandom(seed)
-    forest = types.SimpleNamespace(snapped_intervals=tuple(Interval(lo, hi) for lo, hi in case["roots"]), unsafe_rng=rng)
+
+    class StandInForest:       # an ordinary object (hashable, weak-referenceable) carrying what build_table reads from a forest
+        pass
+    forest = StandInForest(); forest.snapped_intervals = tuple(Interval(lo, hi) for lo, hi in case["roots"]); forest.unsafe_rng = rng
     tables = {tuple(case["left_comb"]): case["left"], tuple(case["right_comb"]): case["right"]}
 
     def materialize(forest_, columns):
@@ -65,7 +68,14 @@ def run_real(case, seed):
     acc = materialize(forest, clusters.initial_cluster)
     for dc in clusters.derived_clusters:
         acc = ST._stitch(materialize, forest, md, acc, dc)
-    return acc, rng.log
+    log = list(rng.log)
+    # the same tables stitched once more on the same forest object (what a second sample() does), RNG in the same state
+    forest.unsafe_rng = TS.RecRandom(seed)
+    acc2 = materialize(forest, clusters.initial_cluster)
+    for dc in clusters.derived_clusters:
+        acc2 = ST._stitch(materialize, forest, md, acc2, dc)
+    case["_second_pass"] = acc2
+    return acc, log
 
 
 def request(case, log):
@@ -149,6 +159,12 @@ def stream_stitch(ctx, built, ncases, name="S-stch"):
                  "result_rows": None if rows is None else len(rows), "error": err}, tag=("patch" if case["patch"] else case["owner"].name) + ("/err" if err else ""))
         if rows is not None:
             oracle(ctx, case, rows, list(cols))
+            rows2, cols2 = case.pop("_second_pass")
+            if (rows2, list(cols2)) != (rows, list(cols)):
+                oracle(ctx, case, rows2, list(cols2))
+                ctx.oracle_fail(f"stitching the same two tables a second time on the same forest object (equal RNG state) gives {len(rows2)} rows instead of the {len(rows)} of the first pass",
+                                {"owner": case["owner"].name, "patch": case["patch"], "L": len(case["left"]), "R": len(case["right"]), "stitch": case["stitch"], "derived": case["derived"]},
+                                "second-pass")
     if built:
         got = TS.split_replies(drive(lines, timeout=900))
         for l, e, g in zip(lines, exps, got):
